@@ -42,6 +42,10 @@ def assemble(sources, stdlib=False):
     return native([{"kind": "assemble", "source": s, "stdlib": stdlib} for s in sources], "asm")
 
 
+# 2^(2^i) mod p: the squarings of 2 that EXPACC-based pow2 sequences multiply into the accumulator
+CONST_MUL = [2, 4, 16, 256, 65536, 2**32]
+
+
 class ExecError(Exception):
     def __init__(self, err):
         self.err = err
@@ -107,6 +111,7 @@ def run_mast(interp, meta, root, overflow_items=2, loop_bound=4, pre=None):
     """all paths of executing `root` from a symbolic stack of depth 16 + overflow_items.
     PathResult.value = ("ok", final top list (F), final overflow list) | ("err", error En)"""
     def make_run(it):
+        it.ctx.const_mul = list(CONST_MUL)
         proc = opsum.make_state(it, meta.cols, overflow_items)
         proc.stack.multi_step = True
         it.begin_run(proc)
